@@ -673,6 +673,12 @@ def shard_fact(sh, ctx):
         run_case(ctx, 'fact', 'FACT', (n,), route)
         if route != 'lit':
             run_case(ctx, 'fact', 'FACT', (float(n),), route)
+    # arguments that are not whole are truncated first - also in the last
+    # unit of the domain
+    for x in (0.5, 1.9, 5.999, 169.5, 170.5, 170.999, 171.0001):
+        run_case(ctx, 'fact', 'FACT', (x,), route, ('arg:not-whole',))
+    for x in (0.5, 2.9, 299.5, 300.5, 300.999, 301.0001):
+        run_case(ctx, 'fact', 'FACTDOUBLE', (x,), route, ('arg:not-whole',))
     for n in list(range(-5, 306)) + [500, 1000]:
         run_case(ctx, 'fact', 'FACTDOUBLE', (n,), route)
         if route != 'lit':
